@@ -302,7 +302,24 @@ pub fn run_type<T: Reg>(cx: &mut Cx, name: &str) {
 		},
 		Mode::C03 | Mode::C08 | Mode::C14 | Mode::C18 | Mode::C19 => {
 			let (nv, nm) = if t { (30, 12) } else { (5, 6) };
-			let inputs = inputs_for::<T>(cx, nv, nm);
+			let mut inputs = inputs_for::<T>(cx, nv, nm);
+			if desc.starts_with("(TCompact") && matches!(cx.mode, Mode::C03 | Mode::C18 | Mode::C14) {
+				// the compact grammar: every length tag of the big-integer mode x boundary top bytes,
+				// and the non-canonical forms of the three short modes
+				for k in 0..16u8 {
+					for top in [0u8, 1, 0x3f, 0x40, 0x7f, 0x80, 0xff] {
+						let mut v = vec![0x03 | (k << 2)];
+						let n = k as usize + 4;
+						for i in 0..n {
+							v.push(if i + 1 == n { top } else if cx.rng.chance(1, 2) { 0xff } else { cx.rng.below(256) as u8 });
+						}
+						inputs.push((v, "compact-grammar", None));
+					}
+				}
+				for v in [vec![0x01u8, 0x00], vec![0xfd, 0x00], vec![0x02, 0x00, 0x00, 0x00], vec![0xfe, 0xff, 0x00, 0x00], vec![0x02, 0x00, 0x01, 0x00], vec![0x03], vec![0x07, 1, 2, 3]] {
+					inputs.push((v, "compact-grammar", None));
+				}
+			}
 			for (inp, fam, _) in inputs {
 				if inp.len() > 70000 && fam != "valid" && !cx.rng.chance(1, 4) {
 					continue;
@@ -734,6 +751,18 @@ fn oracle_c12<T: Reg>(cx: &mut Cx, name: &str, desc: &str, inp: &[u8], fam: &str
 			(DRes::Err, RRes::Err(_)) => {},
 			(DRes::Err, RRes::Ok(..)) => cx.oracle.check(false, "mem-limit-accepts-what-decode-rejects", || format!("{}\tL={l}", rp())),
 			_ => cx.oracle.check(false, "mem-limit-panic", || format!("{}\tL={l}", rp())),
+		}
+		// the limit composed with the (non-binding) depth limiter and the counter: same verdict
+		if l <= 2 || l + 1 >= u || cx.rng.chance(1, 4) {
+			for layers in [vec![Layer::Mem(l as usize), Layer::Depth(u32::MAX - 1)], vec![Layer::Count, Layer::Mem(l as usize), Layer::Depth(1000)]] {
+				let r2 = push_run::<T>(cx, name, desc, inp, known, &layers, fam);
+				let same = match (&rr, &r2) {
+					(RRes::Ok(a, c, _), RRes::Ok(b, d, _)) => a.same(b) && c == d,
+					(RRes::Err(_), RRes::Err(_)) => true,
+					_ => false,
+				};
+				cx.oracle.check(same, "mem-limit-lost-in-wrapper-stack", || format!("{}\tL={l}\tlayers={:?}", rp(), layers));
+			}
 		}
 	}
 }
